@@ -1,7 +1,7 @@
 (* C10: the cases written by the correspondence harness, over all mechanism models (definitions only).
    `C0` wraps the cases of Model.v (ring, fixed queue, FastVec with drop-counting elements). *)
 From ZV.Common Require Import Base Run.
-From ZV.C10 Require Import Model ModelValVec32 ModelArena ModelStrVec ModelFixedLen ModelFastVecCopy ModelCacheVec ModelBitPacked.
+From ZV.C10 Require Import Model ModelValVec32 ModelArena ModelStrVec ModelFixedLen ModelFastVecCopy ModelCacheVec ModelBitPacked ModelRingBulk.
 Open Scope N_scope.
 
 Inductive case_t : Type :=
@@ -19,7 +19,9 @@ Inductive case_t : Type :=
 (* BumpVec<T>: capacity *)
 | CBump (c : N) (ops : list (bop N)) (expect : list (list Z))
 (* BitPackedStringVec32 (false) / 64 (true) *)
-| CBitP (w64 : bool) (ops : list pop) (expect : list (list Z)).
+| CBitP (w64 : bool) (ops : list pop) (expect : list (list Z))
+(* AutoGrowCircularQueue: a history, then pop_bulk into the slice `out` *)
+| CRingInto (c : N) (pre : list tq) (out : list N) (expect : list Z).
 
 Definition ok (c : case_t) : bool :=
   match c with
@@ -31,4 +33,5 @@ Definition ok (c : case_t) : bool :=
   | CCav counted sz c ops e => eqb_llz (cav_trace0 counted sz c ops) e
   | CBump c ops e => eqb_llz (bv_trace0 c ops) e
   | CBitP w64 ops e => eqb_llz (bpv_trace w64 bpv_new ops) e
+  | CRingInto c pre out e => eqb_llz [ring_into_trace c pre out] [e]
   end.
